@@ -297,7 +297,30 @@ def run(ctx):
         # every normal return must be post-dominated… the session reset must not depend on the write
         clears = [bb for (f, op, bb, w) in phonetic.field_writes(prog, cc, mods, body=b) if op.endswith("::clear") and f == (builders.method_roles(prog)[R["method_ty"]]["buffer"],)]
         reset_always = bool(clears) and any(b.postdominates(cb_, 0) for cb_ in clears)
-        if bad:
+        # after the in-memory insert the save is attempted whatever the method's own state is: the only condition allowed between the
+        # insert and the write is the outcome of serialising the map; and the outcome of the write is not kept in the method's state
+        cond_bad = None
+        for (wbb, wt) in wr:
+            for (d, pol, s_) in guards_of(b, wbb):
+                if not b.dominates(ins[0][0], s_):
+                    continue
+                if contains_call(d, lambda m: "serde_json" in m) is not None:
+                    continue
+                cond_bad = (s_, d)
+        kept = None
+        for (i_, j_, st_) in b.stmts():
+            if st_["k"] == "assign" and st_["place"]["p"]:
+                lhs = self_path(b.expr_place(st_["place"]))
+                if lhs:
+                    v_ = b.expr_rvalue(st_["rv"])
+                    if any(x.k == "call" and any(x.a[2] == wbb and x.a[0] == callee_name(wt) for (wbb, wt) in wr) for x in v_.walk()):
+                        kept = (i_, ".".join(lhs))
+        if cond_bad is not None:
+            r3.violation("result", "after the choice was learned the save is attempted only under %r: once that is false every later learned choice stays in memory "
+                         "only (more than the one choice of a failed save is lost)" % (cond_bad[1],), site_of(b, cond_bad[0]))
+        elif kept is not None:
+            r3.violation("result", "the outcome of the save is kept in the method's state (self.%s): a failed save changes how later commits behave" % kept[1], site_of(b, kept[0]))
+        elif bad:
             r3.violation("result", "the outcome of the save decides what is written to the method's state: %s" % (bad[1],), site_of(b, bad[0]))
         elif not reset_always:
             r3.violation("result", "the composition is not reset on every path of commit (a path — e.g. after a failed save — returns before clearing it)",
